@@ -20,7 +20,7 @@ Anything outside the subset raises TErr: the caller treats that as "translator t
 import os, re, sys, json
 
 REPO = os.environ.get("VERIF_REPO", "/repo")
-OUT = os.path.join(os.path.dirname(os.path.abspath(__file__)), "..", "lean", "Midi", "Gen")
+OUT = os.environ.get("VERIF_GEN_OUT") or os.path.join(os.path.dirname(os.path.abspath(__file__)), "..", "lean", "Midi", "Gen")
 
 class TErr(Exception):
     pass
@@ -29,10 +29,11 @@ class TErr(Exception):
 TOKEN_RE = re.compile(r'''
   (?P<ws>\s+)
  |(?P<str>"(?:\\.|[^"\\])*")
- |(?P<num>\d[\d_]*(?:u8|u16|u32|u64|usize|i32|i64)?)
+ |(?P<num>0x[0-9a-fA-F_]+|0b[01_]+|\d[\d_]*(?:u8|u16|u32|u64|usize|i32|i64)?)
+ |(?P<rawid>r\#[A-Za-z_][A-Za-z0-9_]*)
  |(?P<id>[A-Za-z_][A-Za-z0-9_]*)
  |(?P<life>'[a-z_]+\b(?!'))
- |(?P<op>\.\.=|\.\.|::|->|=>|==|!=|<=|>=|&&|\|\||\+=|-=|[-+*/%=<>!&|^.,;:(){}\[\]\#?@])
+ |(?P<op>\.\.=|\.\.|::|->|=>|==|!=|<=|>=|&&|\|\||\+=|-=|>>|<<|[-+*/%=<>!&|^.,;:(){}\[\]\#?@])
 ''', re.X)
 
 def strip_comments(s):
@@ -60,13 +61,17 @@ def tokenize(s):
         k = m.lastgroup
         if k == "ws":
             continue
+        if k == "rawid":
+            toks.append(("id", m.group(k)[2:] + "_"))      # r#type -> type_
+            continue
         toks.append((k, m.group(k)))
     return toks
 
 # ------------------------------------------------------------------------------------------------ parser
 class Parser:
-    def __init__(self, toks):
+    def __init__(self, toks, keep_trait_impls=()):
         self.t = toks; self.i = 0
+        self.keep_trait_impls = set(keep_trait_impls)
 
     def peek(self, k=0):
         return self.t[self.i + k] if self.i + k < len(self.t) else ("eof", "")
@@ -139,10 +144,16 @@ class Parser:
         args = []
         if self.at("<"):
             self.i += 1
-            while not self.at(">"):
+            while not self.at(">") and not self.at(">>"):
                 args.append(self.type()); self.eat(",")
-            self.expect(">")
+            self.close_angle()
         return {"k": "path", "name": segs[-1], "segs": segs, "args": args}
+
+    def close_angle(self):
+        if self.at(">>"):
+            self.t[self.i] = ("op", ">")              # `>>` closing two generic argument lists: consume one `>`
+            return
+        self.expect(">")
 
     # ---- items
     def file(self):
@@ -163,11 +174,25 @@ class Parser:
                 items.append(self.enum(derives)); continue
             if self.at("impl"):
                 items.append(self.impl()); continue
-            if self.at("fn"):
+            if self.at("trait"):
+                items.append(self.trait()); continue
+            if self.at("unsafe") and self.at("fn", 1) or self.at("fn"):
                 f = self.fn(); f["owner"] = None
                 items.append({"k": "fn", "fn": f}); continue
-            if self.at("mod") or self.at("const") or self.at("type") or self.at("macro_rules"):
-                raise TErr("unsupported item %r" % (self.peek(),))
+            if self.at("mod") or self.at("const") or self.at("type") or self.at("macro_rules") or self.at("static"):
+                # skipped wholesale (brace / semicolon matching); listed in the generated header
+                what = "%s %s" % (self.peek()[1], self.peek(1)[1])
+                depth = 0
+                while True:
+                    t = self.peek()
+                    if t[0] == "eof": break
+                    self.i += 1
+                    if t[0] != "str" and t[1] in "{([": depth += 1
+                    if t[0] != "str" and t[1] in "})]":
+                        depth -= 1
+                        if depth == 0 and t[1] == "}": break
+                    if t[0] != "str" and t[1] == ";" and depth == 0: break
+                items.append({"k": "skipped", "what": what}); continue
             raise TErr("unexpected token at item level: %r" % (self.peek(),))
         return items
 
@@ -192,6 +217,17 @@ class Parser:
         fields = []
         if self.eat(";"):
             return {"k": "struct", "name": name, "generics": g, "fields": fields, "derives": derives}
+        if self.at("("):
+            depth = 0
+            while True:
+                t = self.peek(); self.i += 1
+                if t[0] == "eof": raise TErr("unterminated tuple struct")
+                if t[0] != "str" and t[1] == "(": depth += 1
+                if t[0] != "str" and t[1] == ")":
+                    depth -= 1
+                    if depth == 0: break
+            self.expect(";")
+            return {"k": "skipped", "what": "tuple struct %s" % name}
         self.expect("{")
         while not self.at("}"):
             self.attrs()
@@ -242,7 +278,7 @@ class Parser:
         if self.eat("for"):
             trait = t1; t1 = self.type()
         self.expect("{")
-        if trait is not None and trait["name"] != "Default":
+        if trait is not None and trait["name"] != "Default" and (trait["name"], t1.get("name")) not in self.keep_trait_impls:
             # trait impls other than Default are glue (From / TryFrom / Display): not translated, listed in the module
             depth = 1
             while depth > 0:
@@ -258,7 +294,7 @@ class Parser:
             self.eat("pub")
             if self.at("("):
                 while not self.eat(")"): self.i += 1
-            if self.at("type"):
+            if self.at("type") or (self.at("const") and not self.at("fn", 1) and not self.at("unsafe", 1)):
                 while not self.eat(";"): self.i += 1
                 continue
             f = self.fn(); f["owner"] = t1["name"]
@@ -266,13 +302,27 @@ class Parser:
         self.expect("}")
         return {"k": "impl", "trait": trait["name"] if trait else None, "type": t1["name"], "generics": g, "fns": fns}
 
+    def trait(self):
+        self.expect("trait")
+        name = self.ident()
+        if self.eat(":"):
+            while not self.at("{"): self.i += 1
+        self.expect("{")
+        fns = []
+        while not self.at("}"):
+            self.attrs()
+            f = self.fn(); f["owner"] = name
+            fns.append(f)
+        self.expect("}")
+        return {"k": "trait", "name": name, "fns": fns}
+
     def fn(self):
         self.eat("const"); self.eat("unsafe")
         self.expect("fn")
         name = self.ident()
         g = self.generics()
         self.expect("(")
-        selfkind = None; params = []
+        selfkind = None; params = []; destruct = []
         while not self.at(")"):
             if self.at("&") and (self.at("self", 1) or (self.at("mut", 1) and self.at("self", 2))):
                 self.i += 1
@@ -281,6 +331,11 @@ class Parser:
                 self.expect("self")
             elif self.at("self"):
                 self.i += 1; selfkind = "val"
+            elif self.at("("):
+                pat = self.pattern()
+                self.expect(":"); pt = self.type()
+                params.append(("p%d_" % len(params), pt))
+                destruct.append((params[-1][0], pat, pt))
             else:
                 self.eat("mut")
                 pn = self.ident(); self.expect(":"); pt = self.type()
@@ -290,9 +345,11 @@ class Parser:
         ret = None
         if self.eat("->"):
             ret = self.type()
-        body = self.block()
+        if self.at("where"):
+            while not self.at("{") and not self.at(";"): self.i += 1
+        body = None if self.eat(";") else self.block()
         return {"name": name, "generics": g, "bounds": {x: self.bounds.get(x) for x in g}, "selfkind": selfkind,
-                "params": params, "ret": ret, "body": body}
+                "params": params, "destruct": destruct, "ret": ret, "body": body}
 
     # ---- statements / blocks
     def block(self):
@@ -368,10 +425,10 @@ class Parser:
         t = self.peek()
         if t[0] == "num":
             self.i += 1
-            lo = int(re.sub(r"[a-z_].*$", "", t[1].replace("_", "")))
+            lo = num_value(t[1])
             if self.eat("..="):
                 hi = self.peek(); self.i += 1
-                return {"k": "prange", "lo": lo, "hi": int(re.sub(r"[a-z_].*$", "", hi[1].replace("_", "")))}
+                return {"k": "prange", "lo": lo, "hi": num_value(hi[1])}
             return {"k": "plit", "v": lo}
         if t[0] == "id" and t[1] == "_":
             self.i += 1
@@ -407,7 +464,7 @@ class Parser:
         return {"k": "pident", "segs": segs}
 
     # ---- expressions (precedence climbing)
-    BIN = [("||",), ("&&",), ("==", "!=", "<", ">", "<=", ">="), ("|",), ("^",), ("&",), ("+", "-"), ("*", "/", "%")]
+    BIN = [("||",), ("&&",), ("==", "!=", "<", ">", "<=", ">="), ("|",), ("^",), ("&",), ("<<", ">>"), ("+", "-"), ("*", "/", "%")]
 
     def expr(self, nostruct=False, lvl=0):
         if lvl == len(self.BIN):
@@ -477,7 +534,7 @@ class Parser:
         t = self.peek()
         if t[0] == "num":
             self.i += 1
-            return {"k": "lit", "v": str(int(re.sub(r"[a-z].*$", "", t[1].replace("_", ""))))}
+            return {"k": "lit", "v": str(num_value(t[1]))}
         if t[0] == "str":
             self.i += 1
             return {"k": "str", "v": t[1][1:-1]}
@@ -513,6 +570,13 @@ class Parser:
             return {"k": "array", "elems": els}
         if self.at("{"):
             return self.block()
+        if self.at("|") or self.at("||"):
+            # closure: parsed so that the enclosing item can be skipped; never translated
+            if not self.eat("||"):
+                self.i += 1
+                while not self.eat("|"): self.i += 1
+            body = self.expr()
+            return {"k": "closure", "body": body}
         if self.at("if"):
             self.i += 1
             if self.eat("let"):
@@ -555,8 +619,19 @@ class Parser:
             if t[1] in ("true", "false"):
                 self.i += 1
                 return {"k": "bool", "v": t[1]}
+            if t[1] == "unsafe" and self.at("{", 1):
+                self.i += 1
+                return self.block()                    # `unsafe { .. }`: the block; its obligations are the model's
             if t[1] in ("while", "loop", "unsafe", "move", "break", "continue", "async", "await"):
                 raise TErr("construct %r is outside the subset" % t[1])
+            if t[1] == "matches" and self.at("!", 1) and self.at("(", 2):
+                self.i += 3
+                e = self.expr()
+                self.expect(",")
+                pat = self.pattern()
+                self.eat(",")
+                self.expect(")")
+                return {"k": "matches", "e": e, "pat": pat}
             if self.at("!", 1) and self.at("(", 2):
                 name = self.ident(); self.i += 1
                 return {"k": "macro", "name": name, "args": self.args()}
@@ -581,17 +656,42 @@ class Parser:
             return {"k": "path", "segs": segs}
         raise TErr("unexpected token in expression: %r" % (t,))
 
-def parse_file(path):
+def num_value(tok):
+    t = tok.replace("_", "")
+    if t.startswith("0x"): return int(t, 16)
+    if t.startswith("0b"): return int(t[2:], 2)
+    return int(re.sub(r"[a-z].*$", "", t))
+
+def parse_file(path, keep_trait_impls=()):
     s = strip_comments(open(path).read())
-    return Parser(tokenize(s)).file()
+    return Parser(tokenize(s), keep_trait_impls).file()
 
 # ------------------------------------------------------------------------------------------------ translation tables
 NAT_TYPES = {"U7", "U14", "U4", "Channel", "ControllerNumber", "KeyNumber", "u8", "u16", "u32", "u64", "usize",
              "Duration", "Instant"}
-EXTERN_TYPES = {"ParameterNumberMessage": "PNMsg", "ControlChange14BitMessage": "CC14Msg", "DataType": "DataType",
+EXTERN_TYPES = {"ShortMessageType": "MsgType", "MessageSuperType": "SuperType", "MessageMainCategory": "MainCategory",
+                "FuzzyMessageSuperType": "FuzzySuperType", "TimeCodeQuarterFrame": "QFrame",
+                "ParameterNumberMessage": "PNMsg", "ControlChange14BitMessage": "CC14Msg", "DataType": "DataType",
                 "StructuredShortMessage": "SMsg", "bool": "Bool"}
 # extern enums: Rust name -> (Lean type, constructor naming = lower-first of the Rust variant name)
-EXTERN_ENUMS = {"DataType": "DataType", "StructuredShortMessage": "SMsg"}
+EXTERN_ENUMS = {"DataType": "DataType", "StructuredShortMessage": "SMsg", "ShortMessageType": "MsgType",
+                "MessageSuperType": "SuperType", "MessageMainCategory": "MainCategory", "FuzzyMessageSuperType": "FuzzySuperType"}
+EXTERN_ENUM_FILES = [("src/structured_short_message.rs", ["StructuredShortMessage"]),
+                     ("src/parameter_number_message.rs", ["DataType"]),
+                     ("src/short_message.rs", ["ShortMessageType", "MessageSuperType", "MessageMainCategory", "FuzzyMessageSuperType"])]
+EXTERN_CONSTS = {"U7::MIN": "0", "U14::MIN": "0", "U4::MIN": "0", "Channel::MIN": "0", "KeyNumber::MIN": "0",
+                 "ControllerNumber::MIN": "0"}
+# methods of types outside the translated files, by (receiver type, method)
+TYPED_METHODS = {
+    ("ShortMessageType", "into"): "Midi.MsgType.toU8",
+    ("ShortMessageType", "super_type"): "Midi.MsgType.superType",
+    ("MessageSuperType", "main_category"): "Midi.SuperType.mainCategory",
+    ("TimeCodeQuarterFrame", "into"): "Midi.QFrame.toU7",
+}
+# the trait ShortMessage: required methods and the two defaults the crate's own types override (dispatch through Impl)
+MSG_REQUIRED = {"status_byte": "status", "data_byte_1": "d1", "data_byte_2": "d2"}
+MSG_OVERRIDABLE = {"to_bytes": ("pure", "toBytes"), "to_structured": ("res", "Midi.toStructured")}
+FACTORY_BY_TYPE = {"StructuredShortMessage": "Midi.structuredFactory", "RawShortMessage": "Midi.rawFactory"}
 # path functions of the rest of the crate: (kind, lean) ; kind pure | res (returns Res) | id (identity on its argument)
 EXTERN_FNS = {
     "build_14_bit_value_from_two_7_bit_values": ("pure", "Midi.build14"),
@@ -602,6 +702,10 @@ EXTERN_FNS = {
     "extract_low_7_bit_value_from_14_bit_value": ("pure", "Midi.extractLow7"),
     "U7": ("id", None), "U14": ("id", None), "U4": ("id", None), "Channel": ("id", None),
     "ControllerNumber": ("id", None), "KeyNumber": ("id", None),
+    "extract_type_from_status_byte": ("res", "Midi.extractType"),
+    "extract_channel_from_status_byte": ("pure", "Midi.extractChannel"),
+    "build_status_byte": ("pure", "Midi.buildStatusByte"),
+    "ControllerNumber::from": ("id", None), "KeyNumber::from": ("id", None), "U7::from": ("id", None),
     "usize::from": ("id", None),
     "u8::from": ("id", None),
     "u16::from": ("id", None),
@@ -610,7 +714,7 @@ EXTERN_FNS = {
 # methods of the rest of the crate, by name: kind pure1 (lean f recv), res1, msgres (uses I), id, elapsed
 EXTERN_METHODS = {
     "get": ("id", None),
-    "into": ("id", None),                     # widening between Nat-modelled restricted integers
+    "is_channel_mode_message_controller_number": ("pure1", "Midi.cnIsChannelMode"),
     "is_some": ("pure1", "Option.isSome"),
     "is_none": ("pure1", "Option.isNone"),
     "to_structured": ("msgres", "Midi.toStructured"),
@@ -619,16 +723,23 @@ EXTERN_METHODS = {
     "elapsed": ("elapsed", None),
 }
 # .expect("<message>") on an Option: which panic site of the model it is
-EXPECT_PANICS = {"impossible": "cc14LsbImpossible"}
+EXPECT_PANICS = {"impossible": "cc14LsbImpossible", "invalid status byte detected": "invalidStatusByte",
+                 "invalid status byte": "structuredInvalidStatus"}
 # static functions of a `T: ShortMessageFactory` type parameter
-FACTORY_FNS = {"control_change": "Midi.mkControlChange"}
+FACTORY_FNS = {"control_change": "Midi.mkControlChange F", "from_bytes_unchecked": "F.ofBytesUnchecked"}
 # assert!(..) sites: (owner, function) -> panic site of the model
-ASSERT_PANICS = {("ControlChange14BitMessage", "new"): "cc14MsbAssert"}
+ASSERT_PANICS = {("ControlChange14BitMessage", "new"): "cc14MsbAssert",
+                 ("ShortMessageFactory", "channel_message"): "categoryAssert",
+                 ("ShortMessageFactory", "system_common_message"): "categoryAssert",
+                 ("ShortMessageFactory", "system_real_time_message"): "categoryAssert"}
 CAST_MOD = {"u8": 2 ** 8, "u16": 2 ** 16, "u32": 2 ** 32, "u64": 2 ** 64, "usize": 2 ** 64}
 RESERVED_TYPE_NAMES = {"Res", "Panic", "Impl", "Bytes", "Factory", "SMsg", "PNMsg", "CC14Msg", "DataType"}
 
+LEAN_KEYWORDS = {"continue", "break", "return", "end", "from", "at", "do", "then", "else", "if", "match", "with", "fun", "let", "in", "open", "where"}
+
 def lower_first(s):
-    return s[0].lower() + s[1:]
+    n = s[0].lower() + s[1:]
+    return "«%s»" % n if n in LEAN_KEYWORDS else n
 
 # ------------------------------------------------------------------------------------------------ code generator
 def ind(lines, n=2):
@@ -641,14 +752,31 @@ def paren(lines):
     return lines
 
 class Gen:
-    def __init__(self, items, extern_enums, modname):
+    def __init__(self, items, extern_enums, modname, cfg=None):
+        cfg = cfg or {}
+        self.cfg = cfg
+        self.trait_kind = {}                                   # trait name -> message | factory
+        self.trait_fns = {}                                    # trait name -> {fn name: fn} (with or without body)
+        extra_skipped = []
+        if cfg.get("only_traits") is not None:
+            kept = []
+            for it in items:
+                if it["k"] == "trait" and it["name"] in cfg["only_traits"]:
+                    kept.append(it)
+                elif it["k"] == "impl" and [it.get("trait"), it.get("type")] in [list(x) for x in cfg.get("trait_impls", [])]:
+                    kept.append(it)
+                elif it["k"] == "skipped":
+                    kept.append(it)
+                else:
+                    extra_skipped.append("%s %s" % (it["k"], it.get("name") or it.get("type") or (it.get("fn") or {}).get("name", "")))
+            items = kept
         self.items = items
         self.modname = modname
         self.structs = {}; self.enums = {}; self.fns = {}      # fns: (owner, name) -> fn
         self.defaults = {}                                     # type -> fn (impl Default)
         self.extern_enum_decls = extern_enums                 # Rust enum name -> parsed enum
         self.tmp = 0
-        self.skipped = [it["what"] for it in items if it["k"] == "skipped"]
+        self.skipped = [it["what"] for it in items if it["k"] == "skipped"] + extra_skipped
         self.notes = set()
         for it in items:
             if it["k"] == "struct": self.structs[it["name"]] = it
@@ -659,14 +787,34 @@ class Gen:
                         self.fns[(it["type"], f["name"])] = f
                 elif it["trait"] == "Default":
                     self.defaults[it["type"]] = it["fns"][0]
+                elif [it["trait"], it["type"]] in [list(x) for x in cfg.get("trait_impls", [])]:
+                    for f in it["fns"]:
+                        f["impl_of"] = it["trait"]
+                        if it["trait"] == "ShortMessageFactory": f["no_factory_param"] = True
+                        self.fns[(it["type"], f["name"])] = f
                 else:
                     raise TErr("impl of trait %s is outside the subset" % it["trait"])
             elif it["k"] == "fn":
                 self.fns[(None, it["fn"]["name"])] = it["fn"]
+            elif it["k"] == "trait":
+                kind = {"ShortMessage": "message", "ShortMessageFactory": "factory"}.get(it["name"])
+                if not kind: raise TErr("trait %s is outside the subset" % it["name"])
+                self.trait_kind[it["name"]] = kind
+                self.trait_fns[it["name"]] = {f["name"]: f for f in it["fns"]}
+                for f in it["fns"]:
+                    if f["body"] is None: continue
+                    if f["name"] in cfg.get("skip_fns", []):
+                        self.skipped.append("fn %s::%s (closures / Result: covered by the correspondence check)" % (it["name"], f["name"]))
+                        continue
+                    f["trait_kind"] = kind
+                    self.fns[(it["name"], f["name"])] = f
         self.by_name = {}
         for (o, n), f in self.fns.items():
             self.by_name.setdefault(n, []).append((o, f))
         self.rename = {n: (n + "_" if n in RESERVED_TYPE_NAMES else n) for n in list(self.structs) + list(self.enums)}
+        for tn in self.trait_kind: self.rename[tn] = tn
+        for (o, n) in self.fns:
+            if o and o not in self.rename: self.rename[o] = o        # functions of a type that stays hand-modelled
         self.compute_effects()
 
     # ---- which functions need the clock / a message implementor
@@ -684,6 +832,9 @@ class Gen:
         for key, f in self.fns.items():
             acc = set(); scan(f["body"], acc); self.calls[key] = acc
         self.needs_now = set(); self.needs_impl = set(); self.needs_factory = set()
+        for key, f in self.fns.items():
+            if f.get("trait_kind") == "message": self.needs_impl.add(key)
+            if f.get("trait_kind") == "factory": self.needs_factory.add(key)
         for key, f in self.fns.items():
             fac = [g for g in f.get("generics", []) if f.get("bounds", {}).get(g) == "ShortMessageFactory"]
             if len(f.get("generics", [])) > 1 or (f.get("generics") and not fac):
@@ -716,13 +867,20 @@ class Gen:
         if k == "array": return "(Vector %s %s)" % (self.ty(t["elem"], owner, generics, fngen), t["len"])
         if k == "tuple":
             if not t["elems"]: return "Unit"
+            if self.cfg.get("tuple3_bytes") and len(t["elems"]) == 3 and [x.get("name") for x in t["elems"]] == ["u8", "U7", "U7"]:
+                return "Bytes"
             return "(" + " × ".join(self.ty(x, owner, generics, fngen) for x in t["elems"]) + ")"
         if k == "impl": raise TErr("impl type in unsupported position")
         n = t["name"]
-        if n == "Self": return self.rename[owner]
-        if n in fngen: return "α"
+        if n == "Self":
+            if self.trait_kind.get(owner) == "factory": return "β"
+            if self.trait_kind.get(owner) == "message": return "α"
+            if owner in EXTERN_TYPES and owner not in self.structs and owner not in self.enums: return EXTERN_TYPES[owner]
+            return self.rename[owner]
+        if n in fngen: return "β"
         if n in generics: return n
         if n in NAT_TYPES: return "Nat"
+        if n in EXTERN_TYPES and n not in self.structs and n not in self.enums and n in self.rename: return EXTERN_TYPES[n]
         if n == "Option": return "(Option %s)" % self.ty(t["args"][0], owner, generics, fngen)
         if n in self.rename:
             if t["args"]:
@@ -824,7 +982,16 @@ class Gen:
             n = e["segs"][0]
             if n == "self": return {"k": "path", "name": ctx["owner"], "args": []}
             v = env["vars"].get(n)
-            return v[1] if v else None
+            if v: return v[1]
+        if k == "path":
+            en = self.variant_enum(e["segs"], env, ctx)
+            return {"k": "path", "name": en, "args": []} if en else None
+        if k == "mcall":
+            rt = self.rtype(e["recv"], env, ctx)
+            if rt and rt["k"] == "ref": rt = rt["inner"]
+            if rt and rt["k"] == "path" and rt["name"] in self.trait_fns and e["name"] in self.trait_fns[rt["name"]]:
+                return self.trait_fns[rt["name"]][e["name"]]["ret"]
+            return None
         if k == "field":
             bt = self.rtype(e["e"], env, ctx)
             if bt and bt["k"] == "ref": bt = bt["inner"]
@@ -891,15 +1058,17 @@ class Gen:
         ctx = {"owner": owner, "selfkind": f["selfkind"], "fn": f, "key": key}
         sig = []
         env = {"vars": {}, "imports": set()}
-        if f["selfkind"]:
-            sig.append("(self : %s)" % self.rename[owner])
+        tk = f.get("trait_kind")
+        if f["selfkind"] and tk != "message":
+            sig.append("(self : %s)" % self.ty({"k": "path", "name": "Self", "args": []}, owner))
         fngen = tuple(f.get("generics", []))
-        if key in self.needs_impl and key in self.needs_factory:
-            raise TErr("a function with both a message and a factory parameter is outside the subset")
         if key in self.needs_impl:
             sig.append("{α : Type} (I : Impl α)")
+        if tk == "message":
+            if not f["selfkind"]: raise TErr("static method in the message trait")
+            sig.append("(self : α)")
         if key in self.needs_factory:
-            sig.append("{α : Type} (F : Factory α)")
+            sig.append("{β : Type} (F : Factory β)")
         for pn, pt in f["params"]:
             if self.is_msg_type(pt):
                 sig.append("(%s : α)" % pn)
@@ -913,16 +1082,107 @@ class Gen:
             rty = "Res (%s × %s)" % (ret, self.rename[owner])
         else:
             rty = "Res %s" % ret
+        pre = []
+        for pname, pat, pt in f.get("destruct", []):
+            if not (self.cfg.get("tuple3_bytes") and pat["k"] == "ptuple" and len(pat["elems"]) == 3 and
+                    all(x["k"] == "pident" and len(x["segs"]) == 1 for x in pat["elems"]) and pt["k"] == "tuple"):
+                raise TErr("destructuring parameter pattern outside the subset")
+            for x, proj, ety in zip(pat["elems"], ["status", "d1", "d2"], pt["elems"]):
+                pre.append("let %s := %s.%s" % (x["segs"][0], pname, proj))
+                env["vars"][x["segs"][0]] = (x["segs"][0], ety)
+        self.annotate(f["body"], f["ret"], env, ctx)
+        if key not in self.needs_factory and f["ret"] is not None and f["ret"].get("name") in FACTORY_BY_TYPE:
+            ctx["factory_arg"] = FACTORY_BY_TYPE[f["ret"]["name"]]      # `self.to_other()` with the target inferred from the return type
         body = self.E(f["body"], env, ctx, lambda v, env2: self.RET(v, ctx))
         out = ["/-- `%s%s` -/" % ((owner + "::") if owner else "", f["name"])]
         out.append("def %s %s : %s :=" % (self.lean_fn_name(key), " ".join(sig), rty))
-        out += ind(body)
+        out += ind(pre + body)
         out.append("")
         return out
 
+    # ---- expected types (only what `.into()` needs): a pre-pass that stores node["expect"]
+    def annotate(self, e, t, env, ctx):
+        if not isinstance(e, dict): return
+        K = e.get("k")
+        if t is not None: e["expect"] = t
+        def opt_inner(tt):
+            return tt["args"][0] if tt and tt.get("k") == "path" and tt.get("name") == "Option" and tt.get("args") else None
+        if K == "block":
+            for st in e["stmts"]:
+                if st["k"] == "let": self.annotate(st["e"], st.get("type"), env, ctx)
+                elif st["k"] == "assign":
+                    ft = None
+                    lhs = st["lhs"]
+                    if lhs["k"] == "field" and lhs["e"].get("k") == "path" and lhs["e"]["segs"] == ["self"] and ctx["owner"] in self.structs:
+                        ft = dict(self.structs[ctx["owner"]]["fields"]).get(lhs["name"])
+                    self.annotate(st["e"], ft, env, ctx)
+                elif st["k"] == "expr": self.annotate(st["e"], None, env, ctx)
+                elif st["k"] == "for": self.annotate(st["body"], None, env, ctx)
+            if e["tail"] is not None: self.annotate(e["tail"], t, env, ctx)
+        elif K == "if":
+            self.annotate(e["c"], None, env, ctx); self.annotate(e["then"], t, env, ctx); self.annotate(e["else"], t, env, ctx)
+        elif K == "iflet":
+            self.annotate(e["e"], None, env, ctx); self.annotate(e["then"], t, env, ctx); self.annotate(e["else"], t, env, ctx)
+        elif K == "match":
+            self.annotate(e["e"], None, env, ctx)
+            for _, body in e["arms"]: self.annotate(body, t, env, ctx)
+        elif K == "return":
+            self.annotate(e["e"], ctx["fn"]["ret"], env, ctx)
+        elif K == "struct":
+            segs = e["segs"]
+            decl = None
+            var = self.variant_of(segs, {"vars": {}, "imports": set(self.all_enum_names())}, ctx)
+            if var and var[1]["kind"] == "struct": decl = dict(var[1]["fields"])
+            else:
+                name = ctx["owner"] if segs == ["Self"] else segs[-1]
+                if name in self.structs: decl = dict(self.structs[name]["fields"])
+            for fn, fe in e["fields"]: self.annotate(fe, decl.get(fn) if decl else None, env, ctx)
+            self.annotate(e.get("base"), None, env, ctx)
+        elif K == "call":
+            f = e["f"]
+            segs = f["segs"] if f.get("k") == "path" else []
+            if segs == ["Some"] and len(e["args"]) == 1:
+                self.annotate(e["args"][0], opt_inner(t), env, ctx); return
+            var = self.variant_of(segs, {"vars": {}, "imports": set(self.all_enum_names())}, ctx) if segs else None
+            if var and var[1]["kind"] == "tuple" and len(var[1]["types"]) == len(e["args"]):
+                for a, at in zip(e["args"], var[1]["types"]): self.annotate(a, at, env, ctx)
+                return
+            key = None
+            if len(segs) == 2:
+                o = ctx["owner"] if segs[0] == "Self" else segs[0]
+                if (o, segs[1]) in self.fns: key = (o, segs[1])
+            ptypes = [pt for _, pt in self.fns[key]["params"]] if key else []
+            for i, a in enumerate(e["args"]): self.annotate(a, ptypes[i] if i < len(ptypes) else None, env, ctx)
+        elif K == "mcall":
+            self.annotate(e["recv"], None, env, ctx)
+            cands = self.by_name.get(e["name"], [])
+            ptypes = [pt for _, pt in cands[0][1]["params"]] if len(cands) == 1 else []
+            for i, a in enumerate(e["args"]): self.annotate(a, ptypes[i] if i < len(ptypes) else None, env, ctx)
+        elif K == "tuple":
+            if self.cfg.get("tuple3_bytes") and len(e["elems"]) == 3:
+                for a, nm in zip(e["elems"], ["u8", "U7", "U7"]): self.annotate(a, {"k": "path", "name": nm, "args": []}, env, ctx)
+            else:
+                for a in e["elems"]: self.annotate(a, None, env, ctx)
+        else:
+            for kk, v in e.items():
+                if kk == "expect": continue
+                if isinstance(v, dict): self.annotate(v, None, env, ctx)
+                elif isinstance(v, list):
+                    for x in v:
+                        if isinstance(x, dict): self.annotate(x, None, env, ctx)
+                        elif isinstance(x, tuple):
+                            for y in x:
+                                if isinstance(y, dict): self.annotate(y, None, env, ctx)
+
+    def all_enum_names(self):
+        return list(self.enums) + list(self.extern_enum_decls)
+
     def check_factory(self, key, ctx):
-        if key in self.needs_factory and ctx.get("key") not in self.needs_factory:
+        if key in self.needs_factory and ctx.get("key") not in self.needs_factory and not ctx.get("factory_arg"):
             raise TErr("call of a factory-generic function from a function without a factory parameter")
+
+    def factory_arg(self, ctx):
+        return "F" if ctx.get("key") in self.needs_factory else ctx.get("factory_arg", "F")
 
     def RET(self, v, ctx):
         if ctx["selfkind"] == "mut":
@@ -941,10 +1201,24 @@ class Gen:
                 for v in self.extern_enum_decls[en]["variants"]:
                     if v["name"] == segs[1]: return ("%s.%s" % (EXTERN_ENUMS[en], lower_first(v["name"])), v, True)
         if len(segs) == 1:
-            for en in env["imports"]:
+            for en in sorted(env["imports"]):
                 if en in self.enums:
                     for v in self.enums[en]["variants"]:
                         if v["name"] == segs[0]: return ("%s.%s" % (self.rename[en], v["name"]), v, False)
+                elif en in EXTERN_ENUMS and en in self.extern_enum_decls:
+                    for v in self.extern_enum_decls[en]["variants"]:
+                        if v["name"] == segs[0]: return ("%s.%s" % (EXTERN_ENUMS[en], lower_first(v["name"])), v, True)
+        return None
+
+    def variant_enum(self, segs, env, ctx):
+        """name of the enum a path to a variant belongs to (for typing receivers)"""
+        if len(segs) == 2:
+            en = ctx["owner"] if segs[0] == "Self" else segs[0]
+            if en in self.enums or en in self.extern_enum_decls: return en
+        if len(segs) == 1:
+            for en in sorted(env["imports"]):
+                decl = self.enums.get(en) or self.extern_enum_decls.get(en)
+                if decl and any(v["name"] == segs[0] for v in decl["variants"]): return en
         return None
 
     # ---- expressions: E returns the Lean lines of a term of the function's result type
@@ -981,6 +1255,8 @@ class Gen:
             if var:
                 if var[1]["kind"] != "unit": raise TErr("non-unit variant %s used as a value" % segs)
                 return k(var[0], env)
+            if "::".join(segs) in EXTERN_CONSTS:
+                return k(EXTERN_CONSTS["::".join(segs)], env)
             if re.match(r"^[A-Z][A-Z0-9_]*$", segs[-1]) and (
                     (len(segs) == 2 and segs[0] == "controller_numbers") or (len(segs) == 1 and "controller_numbers" in env["imports"])):
                 if segs[-1] not in CONTROLLER_CONSTANTS: raise TErr("unknown controller number constant %s" % segs[-1])
@@ -1001,6 +1277,10 @@ class Gen:
                 if op in ("<", ">", "<=", ">="):
                     lop = {"<": "<", ">": ">", "<=": "≤", ">=": "≥"}[op]
                     return k("(decide (%s %s %s))" % (a, lop, b), env2)
+                if op == "&": return k("(%s &&& %s)" % (a, b), env2)
+                if op == ">>": return k("(%s >>> %s)" % (a, b), env2)
+                if op in ("|", "<<", "^"):
+                    raise TErr("operator %s needs the operand width (overflow / sign) and is outside the subset" % op)
                 if op == "+" and e.get("index_arith"):
                     self.notes.add("`+=` on a usize index local is unbounded addition on Nat (the index stays below the array length, far from overflow)")
                     return k("(%s + %s)" % (a, b), env2)
@@ -1013,8 +1293,13 @@ class Gen:
             self.notes.add("`as uN` on a Nat-modelled unsigned value is reduction modulo 2^N")
             return self.E(e["e"], env, ctx, lambda v, env2: k("(%s %% %d)" % (v, CAST_MOD[e["to"]]), env2))
         if K == "macro":
-            if e["name"] != "assert" or len(e["args"]) != 1: raise TErr("macro %s! is outside the subset" % e["name"])
             site = (ctx["owner"], ctx["fn"]["name"])
+            if e["name"] == "assert_eq" and len(e["args"]) == 2:
+                if site not in ASSERT_PANICS: raise TErr("assert_eq! in %s::%s has no panic site in the model" % site)
+                def kae(vs, env2):
+                    return paren(["if (%s == %s) then" % (vs[0], vs[1])] + ind(k("()", env2)) + ["else"] + ind([".error .%s" % ASSERT_PANICS[site]]))
+                return self.seq(e["args"], env, ctx, kae)
+            if e["name"] != "assert" or len(e["args"]) != 1: raise TErr("macro %s! is outside the subset" % e["name"])
             if site not in ASSERT_PANICS: raise TErr("assert! in %s::%s has no panic site in the model" % site)
             def ka(c, env2):
                 return paren(["if %s then" % c] + ind(k("()", env2)) + ["else"] + ind([".error .%s" % ASSERT_PANICS[site]]))
@@ -1061,7 +1346,20 @@ class Gen:
         if K == "repeat":
             return self.seq([e["elem"], e["len"]], env, ctx, lambda vs, env2: k("(Vector.replicate %s %s)" % (vs[1], vs[0]), env2))
         if K == "tuple":
+            if self.cfg.get("tuple3_bytes") and len(e["elems"]) == 3:
+                return self.seq(e["elems"], env, ctx, lambda vs, env2: k("(⟨%s⟩ : Bytes)" % ", ".join(vs), env2))
             return self.seq(e["elems"], env, ctx, lambda vs, env2: k("(%s)" % ", ".join(vs), env2))
+        if K == "matches":
+            def kmt(v, env2):
+                pat = e["pat"]
+                alts = pat["alts"] if pat["k"] == "por" else [pat]
+                lps = []
+                for a in alts:
+                    lp, lets, env3 = self.pat(a, env2, ctx)
+                    if lets or env3["vars"] != env2["vars"]: raise TErr("matches! with bindings")
+                    lps.append(lp)
+                return k("(match %s with | %s => true | _ => false)" % (v, " | ".join(lps)), env2)
+            return self.E(e["e"], env, ctx, kmt)
         if K == "index":
             def ki(vs, env2):
                 a, i = vs
@@ -1085,7 +1383,11 @@ class Gen:
         name = ctx["owner"] if segs == ["Self"] else segs[-1]
         var = self.variant_of(segs, env, ctx)
         if var:
-            raise TErr("struct-like enum variant literals are outside the subset")
+            if var[1]["kind"] != "struct" or e["base"] is not None: raise TErr("variant literal shape outside the subset")
+            declared = [fn for fn, _ in var[1]["fields"]]
+            given = {fn: fe for fn, fe in e["fields"]}
+            if sorted(declared) != sorted(given): raise TErr("variant literal %s does not list exactly the declared fields" % segs)
+            return self.seq([given[fn] for fn in declared], env, ctx, lambda vs, env2: k("(%s %s)" % (var[0], " ".join(vs)), env2))
         if name not in self.structs: raise TErr("struct literal of unknown type %s" % name)
         s = self.structs[name]
         lname = self.rename[name] + (" _" * len(s["generics"]))
@@ -1117,10 +1419,11 @@ class Gen:
         if var:
             if var[1]["kind"] != "tuple": raise TErr("call of a non-tuple variant")
             return self.seq(e["args"], env, ctx, lambda vs, env2: k("(%s %s)" % (var[0], " ".join(vs)), env2))
-        if len(segs) == 2 and segs[0] in ctx["fn"].get("generics", []) and segs[1] in FACTORY_FNS:
+        if len(segs) == 2 and segs[1] in FACTORY_FNS and (segs[0] in ctx["fn"].get("generics", []) or
+                (segs[0] == "Self" and self.trait_kind.get(ctx["owner"]) == "factory" and (ctx["owner"], segs[1]) not in self.fns)):
             def kf(vs, env2):
                 t = self.fresh()
-                return paren(["do", "  let %s ← %s F %s" % (t, FACTORY_FNS[segs[1]], " ".join(vs))] + ind(k(t, env2)))
+                return paren(["do", "  let %s ← %s %s" % (t, FACTORY_FNS[segs[1]], " ".join(vs))] + ind(k(t, env2)))
             return self.seq(e["args"], env, ctx, kf)
         if full in EXTERN_FNS:
             kind, lean = EXTERN_FNS[full]
@@ -1142,7 +1445,7 @@ class Gen:
         def ks(vs, env2):
             t = self.fresh()
             self.check_factory(key, ctx)
-            extra = (["I"] if key in self.needs_impl else []) + (["F"] if key in self.needs_factory else []) + vs + (["now"] if key in self.needs_now else [])
+            extra = (["I"] if key in self.needs_impl else []) + ([self.factory_arg(ctx)] if key in self.needs_factory else []) + vs + (["now"] if key in self.needs_now else [])
             return paren(["do", "  let %s ← %s %s" % (t, self.lean_fn_name(key), " ".join(extra))] + ind(k(t, env2)))
         return self.seq(e["args"], env, ctx, ks)
 
@@ -1156,6 +1459,47 @@ class Gen:
                 t = self.fresh()
                 return paren(["match %s with" % v, "| some %s =>" % t] + ind(k(t, env2)) + ["| none => .error .%s" % EXPECT_PANICS[msg]])
             return self.E(recv, env, ctx, ke)
+        is_self = recv["k"] == "path" and recv["segs"] == ["self"]
+        if is_self and self.trait_kind.get(ctx["owner"]) == "message":
+            if name in MSG_REQUIRED and not e["args"]:
+                return k("(I.%s self)" % MSG_REQUIRED[name], env)
+            if name in MSG_OVERRIDABLE and not e["args"]:
+                kind, lean = MSG_OVERRIDABLE[name]
+                if kind == "pure": return k("(I.%s self)" % lean, env)
+                t = self.fresh()
+                return paren(["do", "  let %s ← %s I self" % (t, lean)] + ind(k(t, env)))
+            key = (ctx["owner"], name)
+            if key not in self.fns: raise TErr("trait method %s is not translated" % name)
+            self.check_factory(key, ctx)
+            def ktm(vs, env2):
+                t = self.fresh()
+                fa = [self.factory_arg(ctx)] if key in self.needs_factory else []
+                return paren(["do", "  let %s ← %s I self %s" % (t, self.lean_fn_name(key), " ".join(fa + vs))] + ind(k(t, env2)))
+            return self.seq(e["args"], env, ctx, ktm)
+        rt0 = self.rtype(recv, env, ctx)
+        if rt0 and rt0["k"] == "ref": rt0 = rt0["inner"]
+        if rt0 is not None and self.is_msg_type({"k": "ref", "inner": rt0} if rt0["k"] == "impl" else rt0) or (rt0 and rt0["k"] == "impl"):
+            if name == "to_other" and not e["args"]:
+                def kto(v, env2):
+                    t = self.fresh()
+                    return paren(["do", "  let %s ← Midi.toOther I %s %s" % (t, self.factory_arg(ctx), v)] + ind(k(t, env2)))
+                return self.E(recv, env, ctx, kto)
+        if rt0 and rt0["k"] == "path" and (rt0["name"], name) in TYPED_METHODS:
+            lean = TYPED_METHODS[(rt0["name"], name)]
+            return self.seq([recv] + e["args"], env, ctx, lambda vs, env2: k("(%s %s)" % (lean, " ".join(vs)), env2))
+        if name == "into" and not e["args"]:
+            src = rt0["name"] if rt0 and rt0["k"] == "path" else None
+            dst = e.get("expect")
+            dstn = dst["name"] if dst and dst.get("k") == "path" else None
+            if src in NAT_TYPES and dstn in NAT_TYPES:
+                self.notes.add("`.into()` between Nat-modelled restricted integers is the identity")
+                return self.E(recv, env, ctx, k)
+            if src in NAT_TYPES and dstn == "TimeCodeQuarterFrame":
+                def kq(v, env2):
+                    t = self.fresh()
+                    return paren(["do", "  let %s ← Midi.QFrame.ofU7 %s" % (t, v)] + ind(k(t, env2)))
+                return self.E(recv, env, ctx, kq)
+            raise TErr("`.into()` from %s to %s: conversion not modelled / target type unknown" % (src, dstn))
         r = self.resolve_method(recv, name, env, ctx)
         if r is None:
             if name not in EXTERN_METHODS: raise TErr("method %s is not modelled" % name)
@@ -1178,7 +1522,7 @@ class Gen:
         if len(callee["params"]) != len(e["args"]): raise TErr("arity mismatch calling %s" % name)
         self.check_factory(key, ctx)
         def extra(vs):
-            return (["I"] if key in self.needs_impl else []) + (["F"] if key in self.needs_factory else []) + vs + (["now"] if key in self.needs_now else [])
+            return (["I"] if key in self.needs_impl else []) + ([self.factory_arg(ctx)] if key in self.needs_factory else []) + vs + (["now"] if key in self.needs_now else [])
         if callee["selfkind"] in ("ref", "val"):
             def kr(vs, env2):
                 t = self.fresh()
@@ -1395,16 +1739,23 @@ def load_controller_constants():
     s = strip_comments(open(os.path.join(REPO, "src", "controller_number_mod.rs")).read())
     CONTROLLER_CONSTANTS.update(re.findall(r"pub\s+const\s+([A-Z][A-Z0-9_]*)\s*:\s*ControllerNumber", s))
 
-FILES = [("control_change_14_bit_message.rs", "CCMsg"),
-         ("parameter_number_message.rs", "PNMsgFile"),
-         ("control_change_14_bit_message_scanner.rs", "CCScan"),
-         ("parameter_number_message_scanner.rs", "PNScan"),
-         ("polling_parameter_number_message_scanner.rs", "PollScan")]
+FILES = [("control_change_14_bit_message.rs", "CCMsg", {}),
+         ("parameter_number_message.rs", "PNMsgFile", {}),
+         ("control_change_14_bit_message_scanner.rs", "CCScan", {}),
+         ("parameter_number_message_scanner.rs", "PNScan", {}),
+         ("polling_parameter_number_message_scanner.rs", "PollScan", {}),
+         # the default methods of the two traits (everything else in these files stays hand-modelled)
+         ("short_message.rs", "ShortMsg", {"only_traits": ["ShortMessage"], "tuple3_bytes": True}),
+         ("short_message_factory.rs", "FactoryDefaults", {"only_traits": ["ShortMessageFactory"], "tuple3_bytes": True,
+                                                          "skip_fns": ["from_bytes"]}),
+         # the two trait impls of StructuredShortMessage (the enum itself is the hand-written SMsg)
+         ("structured_short_message.rs", "StructuredImpl", {"only_traits": [], "tuple3_bytes": True,
+                                                            "trait_impls": [["ShortMessageFactory", "StructuredShortMessage"],
+                                                                            ["ShortMessage", "StructuredShortMessage"]]})]
 
 def extern_enums():
     out = {}
-    for rel, names in [("src/structured_short_message.rs", ["StructuredShortMessage"]),
-                       ("src/parameter_number_message.rs", ["DataType"])]:
+    for rel, names in EXTERN_ENUM_FILES:
         s = strip_comments(open(os.path.join(REPO, rel)).read())
         for n in names:
             m = re.search(r"pub\s+enum\s+%s\s*\{" % n, s)
@@ -1428,12 +1779,14 @@ def main():
     except (TErr, OSError) as ex:
         ext = None
         err = str(ex)
-    for fname, mod in FILES:
+    for fname, mod, cfg in FILES:
         path = os.path.join(OUT, mod + ".lean")
         try:
             if ext is None: raise TErr("extern enums: " + err)
-            items = parse_file(os.path.join(REPO, "src", fname))
-            g = Gen(items, ext, mod)
+            items = parse_file(os.path.join(REPO, "src", fname), [tuple(x) for x in cfg.get("trait_impls", [])])
+            if cfg.get("only_traits"):
+                ext2 = dict(ext)
+            g = Gen(items, ext, mod, cfg)
             text = g.module("src/" + fname)
             write_if_changed(path, text)
             status[mod] = {"ok": True, "functions": len(g.fns), "types": len(g.structs) + len(g.enums), "lines": text.count("\n")}
